@@ -241,6 +241,7 @@ def r10_4(prog, out):
 
 
 @rule("C10", "R10.5", "a subscription read back reports the name, topic, effective deadline and push config it was created with", floor=5)
+@rule("C11", "R10.5", "a subscription read back reports the name, topic, effective deadline and push config it was created with", floor=5)
 def r10_5(prog, out):
     A = prog.anchors
     sl = Slicer(prog)
@@ -288,3 +289,43 @@ def r10_5(prog, out):
         if ws:
             out.violation("info-immutable:%s" % f, prog.loc(ws[0][0], ws[0][1].bb), "SubscriptionInfo.%s is modified after creation" % f)
     out.holds("info-immutable", "", "SubscriptionInfo fields are only set at construction")
+
+
+@rule("C10", "R10.6", "a handle method returns only after the actor has answered (the effect is applied when the call returns)", floor=11)
+@rule("C01", "R10.6", "a handle method returns only after the actor has answered (the effect is applied when the call returns)", floor=11)
+@rule("C02", "R10.6", "a handle method returns only after the actor has answered (the effect is applied when the call returns)", floor=11)
+@rule("C05", "R10.6", "a handle method returns only after the actor has answered (the effect is applied when the call returns)", floor=11)
+@rule("C11", "R10.6", "a handle method returns only after the actor has answered (the effect is applied when the call returns)", floor=11)
+def r10_6(prog, out):
+    for actor in prog.actors:
+        adt = prog.facts.adt(actor.request)
+        for v in adt["variants"]:
+            if not any(f["name"] == "responder" or f["ty"].startswith("tokio::sync::oneshot::Sender<") for f in v["fields"]):
+                continue
+            cons = prog.constructions(actor.request, v["name"])
+            if not cons:
+                out.undecided("reply-awaited:%s::%s" % (short_ty(actor.request), v["name"]), "", "request variant is never built")
+                continue
+            for (bid, bb, i, rv) in cons:
+                bi = prog.info(bid)
+                key = "reply-awaited:%s::%s:%s" % (short_ty(actor.request), v["name"], prog.short(bid))
+                names = rv.j["fields"]
+                ridx = [k for k, f in enumerate(v["fields"]) if f["ty"].startswith("tokio::sync::oneshot::Sender<")]
+                o = bi.trace(rv.ops[ridx[0]]) if ridx else None
+                if o is None or o.kind != "call" or bi.call_at(o.data).callee.path != "tokio::sync::oneshot::channel":
+                    out.undecided(key, bi.loc(bb), "responder does not come from a oneshot::channel() of this body (%r)" % o)
+                    continue
+                chan = o.data
+                waits = [a for a in bi.awaits if await_class(prog, bi, a) == "oneshot_recv" and a.origin is not None and a.origin.kind == "call" and a.origin.data == chan]
+                if not waits:
+                    out.violation(key, bi.loc(bb), "%s::%s is sent but its reply is never awaited: the call returns before the actor has applied the request, "
+                                  "so a caller can observe (or rely on) an effect that has not happened yet" % (short_ty(actor.request), v["name"]))
+                    continue
+                errs = error_blocks(bi)
+                # from the request's construction every successful path passes the reply
+                esc = bi.cfg.escapes(bb, {w.ready_bb for w in waits if w.ready_bb is not None} | errs)
+                if esc is None:
+                    out.holds(key, bi.loc(waits[0].poll_bb), "every successful return follows the actor's reply")
+                else:
+                    out.violation(key, bi.loc(esc[-1]), "a path returns successfully without waiting for the actor's reply to %s" % v["name"],
+                                  ["bb%d (%s)" % (x, bi.loc(x)) for x in esc][:8])
